@@ -149,6 +149,10 @@ package fsnotify
 //@   let k = uint32(lastWd)
 //@   let P0 = old(w.watches.path)
 //@   let W0 = old(w.watches.wd)
+//@   let f0 = flags
+//@   atcall unix.InotifyAddWatch: arg_mask & f0 == f0                                                [C15 C01] "the kernel is asked for at least the flags the caller requested"
+//@   atcall unix.InotifyAddWatch: !has(P0, path) ==> arg_mask == f0                                  [C15] "a first Add asks for exactly the requested flags"
+//@   atcall unix.InotifyAddWatch: has(P0, path) ==> arg_mask & unix.IN_MASK_ADD != 0 && arg_mask & W0[P0[path]].flags == W0[P0[path]].flags     [C15 C01] "a repeated Add adds to the mask the kernel holds (IN_MASK_ADD) and repeats the flags recorded for the path: what an earlier Add asked for stays observable"
 //@   ensures held(shared.mu)
 //@   ensures TablesInv(w.watches)                                                                   [C01 C02 C04 C07 C08 C09 C12]
 //@   ensures KInv(w.watches)                                                                        [C12]
